@@ -3,7 +3,9 @@ package checks
 import (
 	"encoding/json"
 	"fmt"
+	"os"
 	"os/exec"
+	"path/filepath"
 	"sort"
 	"strings"
 	"time"
@@ -11,6 +13,7 @@ import (
 
 	"github.com/github/git-sizer/sizes"
 
+	"verif/cli"
 	"verif/explore"
 	"verif/gen"
 	"verif/inproc"
@@ -307,6 +310,8 @@ func clip(s string) string {
 
 func c19Worker(sh *explore.Shard) {
 	install()
+	cliDir := scratch("c19")
+	defer os.RemoveAll(cliDir)
 	names := c19Names(sh.Tier)
 	var idx int64
 	// the reference-name rule is validated against real git on the whole alphabet
@@ -327,9 +332,10 @@ func c19Worker(sh *explore.Shard) {
 	}
 	// plain-name baseline key sets
 	base := c19Scenario("dir", "file", "main")
-	bres := inproc.Scan(modelgit.NewEnv(base.Repo, &modelgit.Plan{}), plainGrouper(), nil, sizes.NameStyleFull, nil)
+	baseRG, _ := realGrouper(nil, nil, false)
+	bres := inproc.Scan(modelgit.NewEnv(base.Repo, &modelgit.Plan{}), baseRG, nil, sizes.NameStyleFull, nil)
 	bj1, _ := json.MarshalIndent(bres.HS, "", "    ")
-	bj2, _ := bres.HS.JSON(nil, 0, sizes.NameStyleFull)
+	bj2, _ := bres.HS.JSON(baseRG.Groups(), 0, sizes.NameStyleFull)
 	bk1, e1 := StrictJSON(bj1)
 	bk2, e2 := StrictJSON(bj2)
 	if e1 != "" || e2 != "" {
@@ -341,6 +347,12 @@ func c19Worker(sh *explore.Shard) {
 			sh.C.Violate(explore.Violation{Property: "C19", Class: class, Msg: msg + " [" + sc.Desc + "]", Case: caseJSON(sh.Index(), map[string]any{"desc": sc.Desc})})
 		}
 		var rg sizes.RefGrouper = plainGrouper()
+		if cfg == nil && rootName == "" {
+			// the grouper the real binary uses when no option is given
+			if g, err := realGrouper(nil, nil, false); err == nil {
+				rg = g
+			}
+		}
 		if cfg != nil {
 			g, err := realGrouper(cfg, nil, false)
 			if err != nil {
@@ -439,6 +451,38 @@ func c19Worker(sh *explore.Shard) {
 				}
 				if style == sizes.NameStyleFull {
 					judgeCitations(sh, "C19", sc, env, &res, style, nil)
+					// CLI tier: the real binary (model git on PATH) must print exactly
+					// these renderings: whatever main does between the scan and stdout
+					// is part of the report too
+					if cfg == nil && rootName == "" && cliDir != "" && len(sc.Desc) < 200 && sh.Index()%3 == 0 {
+						if fsn, err := cli.NewFakeSession(filepath.Join(cliDir, fmt.Sprintf("f%d", sh.Index())), sc.Repo, &modelgit.Plan{GitDir: "/model/.git"}); err == nil {
+							for _, run := range []struct {
+								args []string
+								want string
+							}{
+								{[]string{"--no-progress", "--json"}, string(j1) + "\n"},
+								{[]string{"--no-progress", "--json", "--json-version=2", "-v"}, string(j2) + "\n"},
+								{[]string{"--no-progress", "-v"}, res.HS.TableString(rg.Groups(), 0, style)},
+							} {
+								fsn.SetPlan(&modelgit.Plan{GitDir: "/model/.git"})
+								out := cli.Run(cliDir, cli.FakeGitDir, fsn.Env(), 60*time.Second, run.args...)
+								sh.C.Validated++
+								sh.C.Add("cli_fakegit_runs", 1)
+								if out.Exit != 0 {
+									mk("cli-error", fmt.Sprintf("the real binary failed (exit %d) with args %v: %s", out.Exit, run.args, tailBytes(out.Stderr, 300)))
+								} else if string(out.Stdout) != run.want {
+									if run.args[1] == "--json" {
+										if _, e := StrictJSON(out.Stdout); e != "" {
+											mk("json", fmt.Sprintf("stdout of the real binary (args %v) is not valid JSON: %s", run.args, e))
+											continue
+										}
+									}
+									mk("cli-differs", fmt.Sprintf("stdout of the real binary (args %v) differs from the rendering of the same scan:\n--- actual\n%s--- expected\n%s", run.args, clipText(string(out.Stdout)), clipText(run.want)))
+								}
+							}
+							os.RemoveAll(fsn.Dir)
+						}
+					}
 				}
 			}()
 		}
@@ -529,6 +573,6 @@ func plainGrouper() sizes.RefGrouper {
 
 func init() {
 	Registry["C19"] = &Check{Level: "exploration", Worker: c19Worker, QuickBudget: 70 * time.Second, ThoroughBudget: 10 * time.Minute,
-		Rule:        "a special-byte alphabet (space, double and single quote, backslash, TAB, LF, CR, 0x01, DEL, invalid UTF-8, multi-byte UTF-8, ':', leading '-', '[1]', printf verbs, braces, U+2028) in four positions (alone, start, middle, end) and long names (255, 256, 4096, 65494, 65495; 70000 in thorough) placed in: directory names, file names (all single placements and a product at reduced alphabet), reference names (only those git check-ref-format accepts; the harness rule is validated against real git on the whole alphabet in every run), ROOT spellings, refgroup symbols and display names; scanned in-process in the three name styles. JSON v1 and v2 must pass an independent strict RFC 8259 validator and have the plain-name key set (per-refgroup members excepted); the table must equal byte-for-byte the text constructed from the scan's own citations (numbered 1..k by first citation, equal texts sharing a number, every footnote cited); descriptions are judged as in C08. non-trivial = every placement",
+		Rule:        "a special-byte alphabet (space, double and single quote, backslash, TAB, LF, CR, 0x01, DEL, invalid UTF-8, multi-byte UTF-8, ':', leading '-', '[1]', printf verbs, braces, U+2028) in four positions (alone, start, middle, end) and long names (255, 256, 4096, 65494, 65495; 70000 in thorough) placed in: directory names, file names (all single placements and a product at reduced alphabet), reference names (only those git check-ref-format accepts; the harness rule is validated against real git on the whole alphabet in every run), ROOT spellings, refgroup symbols and display names; scanned in-process in the three name styles. JSON v1 and v2 must pass an independent strict RFC 8259 validator and have the plain-name key set (per-refgroup members excepted); the table must equal byte-for-byte the text constructed from the scan's own citations (numbered 1..k by first citation, equal texts sharing a number, every footnote cited); descriptions are judged as in C08; for every third tree-entry placement the real binary (model git on PATH) must print byte-for-byte the same JSON v1, JSON v2 and table as the in-process rendering of the same scan. non-trivial = every placement",
 		Assumptions: []string{"reference names are limited to what git itself can hold", "footnote texts are taken from the scan result (Path.String()) and the table is compared with the constructive expected text"}}
 }
